@@ -7,7 +7,10 @@
 import LyonVerif.Lemmas.AdaptersConcreteT
 import LyonVerif.Lemmas.AdaptersConcreteSim
 import LyonVerif.Lemmas.AdaptersConcreteEx
+import LyonVerif.Lemmas.AdaptersConcreteTol
+import LyonVerif.Lemmas.AdaptersConcreteSimNeg
 import Mathlib.Analysis.SpecialFunctions.Sqrt
+import Mathlib.Analysis.SpecialFunctions.Pow.Real
 
 set_option linter.unusedSectionVars false
 set_option linter.unusedVariables false
@@ -15,11 +18,11 @@ set_option linter.unusedVariables false
 namespace Lyon.Adapt
 open Lyon Lyon.Path Scalar Lyon.Flat
 
-/-- ℝ with Mathlib's `sqrt`, `ceil`, `floor`, `⌊·⌋₊` (fields the flattening code does not use are
+/-- ℝ with Mathlib's `sqrt`, `powf` (real power), `ceil`, `floor`, `⌊·⌋₊` (fields the flattening code does not use are
 placeholders) -/
 @[instance_reducible] noncomputable def exRealTransc : Transc ℝ :=
   { sqrt := Real.sqrt, cbrt := id, sin := id, cos := id, tan := id, acos := id,
-    atan2 := fun a _ => a, pow := fun a _ => a, log2 := id, ln := id,
+    atan2 := fun a _ => a, pow := fun a b => a ^ b, log2 := id, ln := id,
     floor := fun x => ((⌊x⌋ : ℤ) : ℝ), ceil := fun x => ((⌈x⌉ : ℤ) : ℝ),
     toNat := fun x => ⌊x⌋₊, fmod := fun a _ => a, eps := 0, pi := 3, isNaN := fun _ => false,
     isFinite := fun _ => true }
@@ -49,10 +52,33 @@ theorem real_ceilLaws : @CeilLaws ℝ _ _ _ exRealTransc exRealConst :=
 theorem exSim : IsSim (⟨3, 4, -4, 3, 1, 2⟩ : Xf ℝ) 5 :=
   ⟨rfl, rfl, by norm_num, by norm_num⟩
 
+/-- the laws C09b's cubic tolerance theorems need (`x ≤ ceil x`, the sixth root) hold of ℝ -/
+theorem real_cubicLaws : @CubicLaws ℝ _ _ _ exRealTransc exRealConst :=
+  @CubicLaws.mk ℝ _ _ _ exRealTransc exRealConst real_countLaws (fun x => Int.le_ceil x)
+    (fun y hy => ⟨Real.rpow_nonneg hy _, by
+      show y ≤ (y ^ ((1 : ℝ) / 6)) ^ 6
+      have := Real.rpow_inv_natCast_pow hy (by norm_num : (6 : ℕ) ≠ 0)
+      rw [one_div]
+      exact le_of_eq this.symm⟩)
+
+/-- an orientation-reversing similarity of scale 5: the reflection-rotation `(3, 4)` -/
+theorem exSimNeg : IsSimNeg (⟨3, 4, 4, -3, 1, 2⟩ : Xf ℝ) 5 :=
+  ⟨rfl, rfl, by norm_num, by norm_num⟩
+
 /-! ### a degenerate cubic (all four control points equal): flattened by both entry points -/
 
 section Cubic
 attribute [local instance 2000] fieldScalar
+
+/-- its `num_quadratics` at `0.4·(1/10)` is 1 -/
+theorem exNumQuadratics :
+    @Cubic.numQuadraticsImpl ℝ _ exRealTransc (⟨⟨0, 0⟩, ⟨0, 0⟩, ⟨0, 0⟩, ⟨0, 0⟩⟩ : Cubic ℝ)
+      ((1 / 10 : ℝ) * @FlatConst.value ℝ exRealConst 4 1) = 1 := by
+  let _ := exRealTransc; let _ := exRealConst
+  simp [Cubic.numQuadraticsImpl, geom]
+  show ((⌈((0 : ℝ) ^ ((6 : ℝ)⁻¹))⌉ : ℤ) : ℝ) ≤ 1
+  rw [Real.zero_rpow (by norm_num)]
+  simp
 
 /-- the callback form does not panic on it: `num_quadratics = ceil 0 ⊔ 1 = 1`, and its one
 quadratic is accepted by `is_linear` -/
@@ -61,7 +87,8 @@ theorem exCbOkCubic : @cbOkCubic ℝ _ exRealTransc exRealConst (1 / 10) ⟨0, 0
   have hnq : (⟨⟨0, 0⟩, ⟨0, 0⟩, ⟨0, 0⟩, ⟨0, 0⟩⟩ : Cubic ℝ).numQuadraticsImpl
       ((1 / 10 : ℝ) * FlatConst.value 4 1) = 1 := by
     simp [Cubic.numQuadraticsImpl, geom]
-    show ((⌈(0 : ℝ)⌉ : ℤ) : ℝ) ≤ 1
+    show ((⌈((0 : ℝ) ^ ((6 : ℝ)⁻¹))⌉ : ℤ) : ℝ) ≤ 1
+    rw [Real.zero_rpow (by norm_num)]
     simp
   have hq : ∀ t0 t1 : ℝ, ((⟨⟨0, 0⟩, ⟨0, 0⟩, ⟨0, 0⟩, ⟨0, 0⟩⟩ : Cubic ℝ).splitRange t0 t1).toQuadratic
       = ⟨⟨0, 0⟩, ⟨0, 0⟩, ⟨0, 0⟩⟩ := by
@@ -92,7 +119,8 @@ theorem exItOkCubic :
   have hnq : (⟨⟨0, 0⟩, ⟨0, 0⟩, ⟨0, 0⟩, ⟨0, 0⟩⟩ : Cubic ℝ).numQuadraticsImpl
       ((1 / 10 : ℝ) * FlatConst.value 4 1) = 1 := by
     simp [Cubic.numQuadraticsImpl, geom]
-    show ((⌈(0 : ℝ)⌉ : ℤ) : ℝ) ≤ 1
+    show ((⌈((0 : ℝ) ^ ((6 : ℝ)⁻¹))⌉ : ℤ) : ℝ) ≤ 1
+    rw [Real.zero_rpow (by norm_num)]
     simp
   have hq : ∀ t0 t1 : ℝ, ((⟨⟨0, 0⟩, ⟨0, 0⟩, ⟨0, 0⟩, ⟨0, 0⟩⟩ : Cubic ℝ).splitRange t0 t1).toQuadratic
       = ⟨⟨0, 0⟩, ⟨0, 0⟩, ⟨0, 0⟩⟩ := by
